@@ -132,7 +132,7 @@ theorem core3_result_is_closed (f g : Core3.Func) (h : Core3.translate f = some 
     ∃ l, Numbering.parseAssign (Core3.slotsOf f) = .ok l ∧
       (Core3.defs (Core3.fill f l)).Nodup ∧ (∀ u ∈ Core3.uses (Core3.fill f l), u ∈ Core3.defs (Core3.fill f l)) ∧
       (∀ u ∈ Core3.labUses (Core3.fill f l), u ∈ Core3.blockDefs (Core3.fill f l)) := by
-  obtain ⟨l, h1, h2, h3, h4, _⟩ := core3_result_is_closed_in _ f g h
+  obtain ⟨l, h1, h2, h3, h4, _⟩ := core3_result_is_closed_in _ f g (Core3.translate_some f g h).1
   exact ⟨l, h1, h2, h3, h4⟩
 
 /-- a duplicated definition (after numbering) is an error -/
@@ -159,8 +159,11 @@ theorem core3_undefined_global_is_error (ge : Core3.GEnv) (f : Core3.Func) (l : 
 
 /-- in particular: a function definition on its own that mentions any global but itself is an error -/
 theorem core3_standalone_global_is_error (f : Core3.Func) (l : List Numbering.Slot) (hl : Numbering.parseAssign (Core3.slotsOf f) = .ok l)
-    (n : Bytes) (hu : n ∈ Core3.globUses (Core3.fill f l)) (hn : n ≠ f.name) : Core3.translate f = none :=
-  core3_undefined_global_is_error _ f l hl n hu (by simpa [Core3.selfEnv] using hn)
+    (n : Bytes) (hu : n ∈ Core3.globUses (Core3.fill f l)) (hn : n ≠ f.name) : Core3.translate f = none := by
+  unfold Core3.translate
+  split
+  · exact core3_undefined_global_is_error _ f l hl n hu (by simpa [Core3.selfEnv] using hn)
+  · rfl
 
 /-- a numbering LLVM rejects is an error -/
 theorem core3_bad_numbering_is_error (ge : Core3.GEnv) (f : Core3.Func) (h : Numbering.parseAssign (Core3.slotsOf f) = .error) :
